@@ -2,5 +2,3 @@ INIT OInit
 NEXT ONext
 INVARIANT Check
 CHECK_DEADLOCK FALSE
-CONSTANTS Blocks = {1}
-          Variant = "disciplined"
